@@ -18,7 +18,21 @@ def _val(x):
     return x.value if x is not None else 0
 
 
-class PNode(G.Node):
+class PBase(G.Node):
+    """Two observed properties are declared here and only their getters are
+    overridden in PNode - one from uncached to cached, one the other way."""
+    inh = Property(Int, observe="value")
+    inh2 = Property(Int, observe="child.value")
+
+    def _get_inh(self):
+        return -1000
+
+    @cached_property
+    def _get_inh2(self):
+        return -1000
+
+
+class PNode(PBase):
     total = Property(Int, observe="children.items.value")
     deep = Property(Int, observe="child.children.items.value")
     tsum = Property(Int, observe="table.items.value")
@@ -63,6 +77,15 @@ class PNode(G.Node):
     def _child_changed(self, new):
         self.deep
 
+    @cached_property
+    def _get_inh(self):
+        _point(self, "inh")
+        return self.value * 2
+
+    def _get_inh2(self):
+        _point(self, "inh2")
+        return self.child.value + 7 if self.child is not None else -7
+
     def _get_unc(self):
         _point(self, "unc")
         return self.child.value if self.child is not None else -1
@@ -90,6 +113,8 @@ PROPS = {
     "vplus": (True, [[["t", "value", T]]]),
     "unc": (False, [[["t", "child", T], ["t", "value", T]]]),
     "two": (False, [[["t", "child", T], ["t", "child", T], ["t", "value", T]]]),
+    "inh": (True, [[["t", "value", T]]]),
+    "inh2": (False, [[["t", "child", T], ["t", "value", T]]]),
 }
 PROP_NAMES = sorted(PROPS)
 
@@ -125,6 +150,11 @@ def model_value(m, name):
     if name == "unc":
         ch = _node(m.child)
         return mval(ch) if ch is not None else -1
+    if name == "inh":
+        return mval(m) * 2
+    if name == "inh2":
+        ch = _node(m.child)
+        return mval(ch) + 7 if ch is not None else -7
     if name == "two":
         ch = _node(m.child)
         if ch is None or _node(ch.child) is None:
